@@ -179,9 +179,9 @@ pub fn initial_globals(m: &ir::Module) -> R<BTreeMap<String, Value>> {
 /// globals the Metal exporter threads through as references: they are bound to storage initialised from `globals`.
 pub fn run_tree(tree: &rssl::ast::Module, dialect: Dialect, name: &str, args: &[Value], globals: &BTreeMap<String, Value>) -> R<Observed> {
     let mut exec = CExec::new(tree, dialect)?;
-    let candidates: Vec<usize> = exec.free_functions().into_iter().filter(|(n, _)| n == name).map(|(_, i)| i).collect();
+    let candidates: Vec<usize> = exec.plain_free_functions().into_iter().filter(|(n, _)| n == name).map(|(_, i)| i).collect();
     // with out/inout parameters Metal has two functions of that name: callers use the one without the tag parameter
-    let candidates: Vec<usize> = candidates.into_iter().filter(|f| !exec.param_info(*f).iter().any(|p| matches!(p.2, CTy::Tag))).collect();
+    let candidates: Vec<usize> = candidates.into_iter().filter(|f| !exec.has_trampoline_tag(*f)).collect();
     let f = match candidates.as_slice() {
         [f] => *f,
         [] => return Err(Trap::Unsupported("function not found by name in the tree".into())),
